@@ -13,11 +13,11 @@ import (
 
 // Contract is the stub renter/host pair's knowledge about one contract.
 type Contract struct {
-	idx    int
-	v2     bool
-	id     types.FileContractID
-	renter *Wallet // signs with keys[0]
-	host   *Wallet // signs with keys[1]
+	idx      int
+	v2       bool
+	id       types.FileContractID
+	renter   *Wallet  // signs with keys[0]
+	host     *Wallet  // signs with keys[1]
 	data     []byte   // the file of the latest revision the pair signed
 	versions [][]byte // every file the pair ever signed for (any of them may be the one on chain on some branch)
 	hostUp   bool     // false: host "crashed", will miss its proof
